@@ -215,6 +215,10 @@ public:
   FnVisitor(ASTContext& c, Canon& k, std::vector<Fact>& f, const FunctionDecl* fn) : C(c), K(k), facts(f), F(fn) {}
   bool shouldVisitTemplateInstantiations() const { return false; }
   bool TraverseLambdaExpr(LambdaExpr* L) { return true; }   // lambdas are separate functions
+  // unevaluated operands are not executed: decltype(*m), sizeof, noexcept
+  bool TraverseDecltypeTypeLoc(DecltypeTypeLoc) { return true; }
+  bool TraverseUnaryExprOrTypeTraitExpr(UnaryExprOrTypeTraitExpr*) { return true; }
+  bool TraverseCXXNoexceptExpr(CXXNoexceptExpr*) { return true; }
   bool TraverseDecl(Decl* D) { if (D && (isa<CXXRecordDecl>(D) || isa<FunctionDecl>(D)) && D != F) return true; return RecursiveASTVisitor::TraverseDecl(D); }
   bool VisitReturnStmt(ReturnStmt* R) { facts.push_back({"return", R->getRetValue() ? K.ex(R->getRetValue()) : "", "", "", R}); return true; }
   bool VisitVarDecl(VarDecl* V) {
@@ -236,6 +240,10 @@ public:
       else if ((op == OO_Slash || op == OO_Percent || op == OO_SlashEqual || op == OO_PercentEqual) && OC->getNumArgs() == 2)
         facts.push_back({"div", getOperatorSpelling(op), K.ex(OC->getArg(0)), K.ex(OC->getArg(1)), E});
       else if (op == OO_Equal && OC->getNumArgs() == 2) facts.push_back({"assign", K.ex(OC->getArg(0)), K.ex(OC->getArg(1)), "=", E});
+    }
+    if (auto* FD = E->getDirectCallee()) {
+      if (FD->getDeclName().isIdentifier() && FD->getName() == "unwrap" && E->getNumArgs() == 1)
+        facts.push_back({"deref", K.ex(E->getArg(0)), "unwrap", K.ty(E->getArg(0)->getType().getUnqualifiedType().getNonReferenceType()), E});
     }
     std::string full = K.ex(E);
     std::string cal = full.substr(0, full.find('('));
@@ -317,7 +325,49 @@ public:
       std::string tk = D->getTerminatorStmt() ? D->getTerminatorStmt()->getStmtClassName() : "";
       out += "{\"cond\":\"" + jesc(K.ex(cond)) + "\",\"pol\":" + std::to_string(pol) + ",\"line\":" + std::to_string(lineOf(cond->getBeginLoc())) + ",\"term\":\"" + tk + "\"}";
     }
+    astGuards(S, K, out, first);
     out += "]";
+  }
+
+  // syntactic guards: enclosing if/else arms, ?: arms and loop bodies (covers `a || b` conditions, whose then-block
+  // has two CFG predecessors and is therefore invisible to the single-edge dominance test above)
+  void astGuards(const Stmt* S, Canon& K, std::string& out, bool& first) {
+    const Stmt* child = S;
+    DynTypedNode cur = DynTypedNode::create(*S);
+    for (int depth = 0; depth < 64; depth++) {
+      auto ps = C.getParents(cur);
+      if (ps.empty()) break;
+      const DynTypedNode& P = ps[0];
+      if (P.get<FunctionDecl>() || P.get<LambdaExpr>()) break;
+      const Stmt* PS = P.get<Stmt>();
+      if (PS) {
+        const Expr* cond = nullptr; int pol = -1; const char* tk = "";
+        if (auto* I = dyn_cast<IfStmt>(PS)) {
+          if (!I->isConstexpr()) {
+            if (child == I->getThen()) { cond = I->getCond(); pol = 1; }
+            else if (child == I->getElse()) { cond = I->getCond(); pol = 0; }
+            tk = "IfStmt.ast";
+          }
+        } else if (auto* Q = dyn_cast<ConditionalOperator>(PS)) {
+          if (child == Q->getTrueExpr()) { cond = Q->getCond(); pol = 1; }
+          else if (child == Q->getFalseExpr()) { cond = Q->getCond(); pol = 0; }
+          tk = "ConditionalOperator.ast";
+        } else if (auto* F = dyn_cast<ForStmt>(PS)) {
+          if (child == F->getBody() && F->getCond()) { cond = F->getCond(); pol = 1; tk = "ForStmt.ast"; }
+        } else if (auto* W = dyn_cast<WhileStmt>(PS)) {
+          if (child == W->getBody()) { cond = W->getCond(); pol = 1; tk = "WhileStmt.ast"; }
+        } else if (auto* B = dyn_cast<BinaryOperator>(PS)) {
+          if (B->getOpcode() == BO_LAnd && child == B->getRHS()) { cond = B->getLHS(); pol = 1; tk = "LAnd.ast"; }
+          if (B->getOpcode() == BO_LOr && child == B->getRHS()) { cond = B->getLHS(); pol = 0; tk = "LOr.ast"; }
+        }
+        if (cond && pol >= 0) {
+          if (!first) out += ","; first = false;
+          out += "{\"cond\":\"" + jesc(K.ex(cond)) + "\",\"pol\":" + std::to_string(pol) + ",\"line\":" + std::to_string(lineOf(cond->getBeginLoc())) + ",\"term\":\"" + tk + "\"}";
+        }
+        child = PS;
+      }
+      cur = P;
+    }
   }
 
   void emit(const FunctionDecl* FD, const Stmt* Body, const std::string& qnOverride, const std::string& extra) {
